@@ -18,6 +18,8 @@
 package processor
 
 import (
+	"errors"
+
 	"github.com/siglens/siglens/pkg/segment/query/iqr"
 	"github.com/siglens/siglens/pkg/segment/structs"
 )
@@ -27,15 +29,15 @@ type transactionProcessor struct {
 }
 
 func (p *transactionProcessor) Process(iqr *iqr.IQR) (*iqr.IQR, error) {
-	panic("not implemented")
+	return nil, errors.New("transactionProcessor.Process: the transaction command is not implemented")
 }
 
 func (p *transactionProcessor) Rewind() {
-	panic("not implemented")
+	// nothing to do
 }
 
 func (p *transactionProcessor) Cleanup() {
-	panic("not implemented")
+	// nothing to do
 }
 
 func (p *transactionProcessor) GetFinalResultIfExists() (*iqr.IQR, bool) {
